@@ -234,7 +234,7 @@ Theorem C13_source_drain_bounds : forall len cap base s e,
 Proof. exact src_drain_bounds_ok. Qed.
 
 (* the statements around those expressions in insert / remove are the ones the model's steps stand for *)
-Theorem C13_source_frames : forallb snd src_frames_vec = true /\ List.length src_frames_vec = 5%nat.
+Theorem C13_source_frames : forallb snd src_frames_vec = true /\ List.length src_frames_vec = 11%nat.
 Proof. split; [exact src_frames_vec_ok | reflexivity]. Qed.
 
 Theorem C13_source_drain_checks : forall len cap base s e a b,
@@ -266,6 +266,18 @@ Theorem C13_source_drain_drop : forall base start tail_start tail_len,
   call_fn src_fns en "vec_drain_drop_new_len" [] = RustSem.Ret (VN (start + tail_len)).
 Proof. exact src_vec_drain_drop_ok. Qed.
 Print Assumptions C13_source_drain_drop.
+
+Theorem C13_source_push_pop_append : forall len cap base x count other, base + len < W ->
+  let en := vself2 len cap base in
+  call_fn src_fns en "vec_push_must_grow" [x] = RustSem.Ret (VB (len =? cap)) /\
+  call_fn src_fns en "vec_push_slot" [x] = RustSem.Ret (VN (base + len)) /\
+  call_fn src_fns en "vec_pop_empty" [] = RustSem.Ret (VB (len =? 0)) /\
+  let en2 := ("count"%string, VN count) :: en in
+  call_fn src_fns en2 "vec_append_reserves" [other] = RustSem.Ret (VN count) /\
+  call_fn src_fns en2 "vec_append_copy_dst" [other] = RustSem.Ret (VN (base + len)) /\
+  call_fn src_fns en2 "vec_append_copy_len" [other] = RustSem.Ret (VN count).
+Proof. exact src_vec_push_pop_append_ok. Qed.
+Print Assumptions C13_source_push_pop_append.
 
 (* ---- into_iter and clone (VecIter.v) ---- *)
 From BV Require Import VecIter.
